@@ -20,7 +20,7 @@
 //! 123 MAIN STREET
 //! ```
 
-use super::swift_utils::{parse_bic, parse_swift_chars};
+use super::swift_utils::{ensure_ascii, parse_bic, parse_swift_chars};
 use crate::errors::ParseError;
 use crate::traits::SwiftField;
 use serde::{Deserialize, Serialize};
@@ -40,6 +40,7 @@ impl SwiftField for Field50NoOption {
     where
         Self: Sized,
     {
+        ensure_ascii(input, "Field 50")?;
         let lines: Vec<String> = input.lines().map(|line| line.to_string()).collect();
 
         if lines.is_empty() {
@@ -95,6 +96,7 @@ impl SwiftField for Field50A {
     where
         Self: Sized,
     {
+        ensure_ascii(input, "Field 50")?;
         let lines: Vec<&str> = input.lines().collect();
 
         if lines.is_empty() {
@@ -215,6 +217,7 @@ impl SwiftField for Field50F {
     where
         Self: Sized,
     {
+        ensure_ascii(input, "Field 50")?;
         let lines: Vec<&str> = input.lines().collect();
 
         if lines.len() < 2 {
@@ -313,6 +316,7 @@ impl SwiftField for Field50K {
     where
         Self: Sized,
     {
+        ensure_ascii(input, "Field 50")?;
         let lines: Vec<&str> = input.lines().collect();
 
         if lines.is_empty() {
@@ -405,6 +409,7 @@ impl SwiftField for Field50C {
     where
         Self: Sized,
     {
+        ensure_ascii(input, "Field 50")?;
         let bic = parse_bic(input)?;
         Ok(Field50C { bic })
     }
@@ -429,6 +434,7 @@ impl SwiftField for Field50L {
     where
         Self: Sized,
     {
+        ensure_ascii(input, "Field 50")?;
         // Field 50L should be a single-line party identifier
         // Reject if contains newlines (which would indicate it's a different variant)
         if input.contains('\n') {
@@ -472,6 +478,7 @@ impl SwiftField for Field50G {
     where
         Self: Sized,
     {
+        ensure_ascii(input, "Field 50")?;
         let lines: Vec<&str> = input.lines().collect();
 
         if lines.len() != 2 {
@@ -526,6 +533,7 @@ impl SwiftField for Field50H {
     where
         Self: Sized,
     {
+        ensure_ascii(input, "Field 50")?;
         let lines: Vec<&str> = input.lines().collect();
 
         if lines.len() < 2 {
@@ -598,6 +606,7 @@ impl SwiftField for Field50InstructingParty {
     where
         Self: Sized,
     {
+        ensure_ascii(input, "Field 50")?;
         // Try to detect variant by format
         // Option C is a BIC (8 or 11 characters)
         // Option L is a party identifier (up to 35 characters)
@@ -668,6 +677,7 @@ impl SwiftField for Field50OrderingCustomerFGH {
     where
         Self: Sized,
     {
+        ensure_ascii(input, "Field 50")?;
         let lines: Vec<&str> = input.lines().collect();
 
         if lines.len() >= 2 {
@@ -755,6 +765,7 @@ impl SwiftField for Field50OrderingCustomerAFK {
     where
         Self: Sized,
     {
+        ensure_ascii(input, "Field 50")?;
         // Try Option A first (numbered lines)
         let lines: Vec<&str> = input.lines().collect();
 
@@ -856,6 +867,7 @@ impl SwiftField for Field50OrderingCustomerNCF {
     where
         Self: Sized,
     {
+        ensure_ascii(input, "Field 50")?;
         let lines: Vec<&str> = input.lines().collect();
 
         // Try Option C (single line BIC)
@@ -937,6 +949,7 @@ impl SwiftField for Field50Creditor {
     where
         Self: Sized,
     {
+        ensure_ascii(input, "Field 50")?;
         // Check for numbered lines (characteristic of Option A)
         let lines: Vec<&str> = input.lines().collect();
 
